@@ -1,6 +1,7 @@
 package mcp
 
 import (
+	"log/slog"
 	"context"
 	"strings"
 	"encoding/json"
@@ -267,3 +268,65 @@ func zzC12Annotate() {
 	}
 	vReach("end")
 }
+
+// ---------------------------------------------------------------- C12 (client side): the tool definition behind the mirror headers
+//
+// The streamable client can mirror a tools/call argument into an Mcp-Param header only if CallTool hands the transport
+// the tool's definition (toolContextKey). Once the client has listed a tool — and until a list_changed notification
+// tells it the list is stale — every CallTool for that name carries that definition, however long ago the list was
+// fetched and whatever caching hint (ttlMs) came with it: the hint governs re-use of the *list result*, not whether
+// the client knows the schema of the tool it is calling.
+var zzLookupTool *Tool
+var zzLookupTTL int
+var zzLookupSeen []*Tool
+var zzLookupCalls int
+
+func zzLookupRPC(ctx context.Context, method string, req Request) (Result, error) {
+	switch method {
+	case methodListTools:
+		return &ListToolsResult{Tools: []*Tool{zzLookupTool, {Name: "other", InputSchema: map[string]any{"type": "object"}}}, Cacheable: Cacheable{TTLMs: zzLookupTTL}}, nil
+	case methodCallTool:
+		zzLookupCalls++
+		t, _ := ctx.Value(toolContextKey).(*Tool)
+		zzLookupSeen = append(zzLookupSeen, t)
+		return &CallToolResult{}, nil
+	}
+	vUnsupported("unexpected method")
+	return nil, nil
+}
+
+func zzC12ToolLookup() {
+	c := &Client{}
+	c.sendingMethodHandler_ = zzLookupRPC
+	cs := &ClientSession{client: c}
+	cs.state.InitializeResult = &InitializeResult{ProtocolVersion: protocolVersion20260728}
+	zzLookupTool = &Tool{Name: "t", InputSchema: map[string]any{"type": "object"}}
+	zzLookupTTL = vIntRange("ttlMs", 0, 1<<40)
+	zzLookupSeen, zzLookupCalls = nil, 0
+	listed := vBool("toolsListedBefore")
+	if listed {
+		_, err := cs.ListTools(context.Background(), &ListToolsParams{})
+		vAssert(err == nil, "C12.lookup.list-ok")
+	}
+	stale := listed && vBool("listChangedSince")
+	if stale {
+		c.callToolChangedHandler(context.Background(), &ToolListChangedRequest{Session: cs, Params: &ToolListChangedParams{}})
+	}
+	// any amount of time passes (time.Now of the model is arbitrary and non-decreasing)
+	relisted := listed && vBool("listedAgainLater")
+	if relisted {
+		_, err := cs.ListTools(context.Background(), &ListToolsParams{})
+		vAssert(err == nil, "C12.lookup.list-ok")
+	}
+	_, err := cs.CallTool(context.Background(), &CallToolParams{Name: "t", Arguments: map[string]any{"p": "v"}})
+	vAssert(err == nil && zzLookupCalls == 1, "C12.lookup.call-sent")
+	if listed && (!stale || relisted) {
+		vAssert(zzLookupSeen[0] == zzLookupTool, "C12.client-call-carries-the-definition-of-the-tool-it-listed")
+		vReach("known")
+	}
+	if !listed {
+		vAssert(zzLookupSeen[0] == nil, "C12.lookup.unknown-tool-has-no-definition")
+	}
+	vReach("end")
+}
+func zzFilterTools12(logger *slog.Logger, tools []*Tool) []*Tool { return tools }
